@@ -87,10 +87,33 @@ class C11(core.Prop):
             for label, t in trees:
                 a, b = bufgen.valid_message(rng, short=True), bufgen.valid_message(rng, short=True)
                 st = {"quote": '"', "selfclose": "space"}
-                text = bufgen.spelling(rng, a, st) + xmlgen.spell(rng, t, st) + bufgen.spelling(rng, b, st)
+                # back to back, or framed the way to_string frames messages (declaration and newlines between them)
+                sep = rng.choice(["", "", "\n", '\n<?xml version="1.0"?>\n'])
+                text = bufgen.spelling(rng, a, st) + sep + xmlgen.spell(rng, t, st) + sep + bufgen.spelling(rng, b, st)
                 thr = rng.choice([None, 2048]) if len(text) < 1500 else None
                 add("not-a-message:" + label.split(":")[0].split("=")[0], text, thr, rng.choice(["whole", "chars", "cuts"]),
                     late=[bufgen.view(a), bufgen.view(b)])
+        # F: messages whose length sits right at the threshold, arriving so that exactly threshold characters are pending
+        for thr in (16, 128, 2048):
+            for extra in (-2, -1, 0, 1, 2, 3):
+                pad = "p" * 3000
+                head = '<message device="'
+                tail = '"/>'
+                n = thr + extra - len(head) - len(tail)
+                if n < 1:
+                    head, tail = "<message", "/>"
+                    n = 0
+                sp = head + pad[:n] + tail if n else head + " " * max(0, thr + extra - len(head) - len(tail)) + tail
+                nxt = bufgen.spelling(rng, bufgen.valid_message(rng, short=True), {"quote": '"', "selfclose": "space"})
+                if thr < 128:
+                    nxt = "<pingReply uid=\"1\"/>"[:thr]
+                for how in ("chars", "whole"):
+                    add("boundary", sp + nxt + nxt, thr, how)
+                cases.append({"label": "boundary", "thr": thr, "pieces": [sp[:thr], sp[thr:] + nxt, nxt], "expect": None, "late": None})
+                cases.append({"label": "boundary", "thr": thr, "pieces": [sp[:max(1, thr - 1)], sp[max(1, thr - 1):thr + 1], sp[thr + 1:] + nxt], "expect": None, "late": None})
+        cases = [c for c in cases if all(isinstance(p, str) for p in c["pieces"]) and any(c["pieces"])]
+        for c in cases:
+            c["pieces"] = [p for p in c["pieces"] if p != ""] or [""]
         # the hypothesis of corrupt_front_is_abandoned, evaluated by the model on the short truncations
         idx = [i for i, c in enumerate(cases) if c.get("front")]
         res, err = core.run_model("buffer", [["corrupt", c["front"]] for c in (cases[i] for i in idx)])
